@@ -366,3 +366,57 @@ Definition server_schema (model_plugin : bool) (d : tsdoc) : tsdoc :=
 Definition server_module (model_plugin : bool) (d : tsdoc) : str :=
   s "// generated by nitrogql" ++ [LF] ++ s "export const schema = "
   ++ js_run (print_tsdoc (server_schema model_plugin d)) ++ s ";" ++ [LF].
+
+(** ** computable guards of the theorems (Proofs*.v); [starts3] of Spec.v is repeated here so that
+    the model does not depend on the specification side *)
+
+(** *** template theorem *)
+Definition no_cr (x : str) : bool := forallb (fun c => negb (c =? CR)) x.
+Definition chunk_of (o : wop) : option str :=
+  match o with W c | WF c _ _ => Some c | _ => None end.
+Definition no_cr_ops (ops : list wop) : bool :=
+  forallb (fun o => match chunk_of o with Some c => no_cr c | None => true end) ops.
+
+Fixpoint ends_dollar (x : str) : bool :=
+  match x with
+  | [] => false
+  | [c] => c =? DOLLAR
+  | _ :: r => ends_dollar r
+  end.
+(** the first non-empty chunk written by [ops] starts with an opening brace *)
+Fixpoint next_starts_brace (ops : list wop) : bool :=
+  match ops with
+  | [] => false
+  | Indent :: r | Dedent :: r => next_starts_brace r
+  | W c :: r | WF c _ _ :: r => match c with [] => next_starts_brace r | x :: _ => x =? LBRACE end
+  end.
+(** no write ends in a dollar sign while the next thing written is an opening brace *)
+Fixpoint no_split_dollar (ops : list wop) : bool :=
+  match ops with
+  | [] => true
+  | Indent :: r | Dedent :: r => no_split_dollar r
+  | W c :: r | WF c _ _ :: r => negb (ends_dollar c && next_starts_brace r) && no_split_dollar r
+  end.
+
+
+(** *** string theorem *)
+Definition triple_quote_at (x : str) : bool :=
+  match x with a :: b :: c :: _ => (a =? DQ) && (b =? DQ) && (c =? DQ) | _ => false end.
+Fixpoint ends_with (c : N) (x : str) : bool :=
+  match x with
+  | [] => false
+  | [d] => d =? c
+  | _ :: r => ends_with c r
+  end.
+(** no three double quotes in a row *)
+Fixpoint no_triple (x : str) : bool :=
+  match x with [] => true | _ :: r => negb (triple_quote_at x) && no_triple r end.
+
+Definition plain_line (x : str) : bool := forallb (fun c => negb (c =? DQ) && negb (c =? BS)) x.
+Definition plain_block (x : str) : bool := no_triple x && negb (ends_with DQ x) && negb (ends_with BS x).
+(** single-line values: no double quote, no backslash; multi-line values: no three quotes in a
+    row, not ending in a quote or a backslash *)
+Definition plain (x : str) : bool := if is_multiline x then plain_block x else plain_line x.
+
+Definition starts_quote (k : str) : bool := match k with c :: _ => c =? DQ | [] => false end.
+
